@@ -9,7 +9,9 @@ it builds spec-encoded bytes and echoes the xids it read from the bytes the cont
  (b) connection loss after every prefix of (a): the I/O loop closes the connection after every message
      prefix; a send fails with EPIPE during every chunk (then close / then the in-flight rest, then close);
  (c) breadth-first search with state matching over histories of {open(i), deliver-next(i), close(i),
-     send-error(i)} on 3 connections over 2 datapath ids.
+     send-error(i)} on 3 connections over 2 datapath ids;
+ (d) every merge order of the handshake deliveries of 2 and of 3 connections of one datapath id
+     (a connection accepted first may complete last), followed by every short sequence of closes.
 
 Oracle: mc.refs.c09_lifecycle.Ref, evaluated after every operation (events on the nexus and on the
 Connection, the registry, and a sendToDPID probe for every datapath id).
@@ -526,6 +528,61 @@ def make_expand (dpids, root):
   return expand
 
 
+# =============================================================================
+# part (d): every merge order of n complete handshakes on ONE datapath id
+# =============================================================================
+def merges (n, per=3):
+  """All interleavings of n sequences of `per` deliveries (as tuples of connection indices)."""
+  out = []
+  def rec (prefix, left):
+    if not any(left): out.append(prefix); return
+    for i in range(n):
+      if left[i]:
+        l2 = list(left); l2[i] -= 1
+        rec(prefix + (i,), l2)
+  rec((), [per] * n)
+  return out
+
+
+def close_tails (n, maxlen):
+  out = [()]
+  if maxlen >= 1: out += [(i,) for i in range(n)]
+  if maxlen >= 2: out += [(i, j) for i in range(n) for j in range(n) if i != j]
+  return out
+
+
+def run_merge (n, order, closes):
+  """n connections of datapath 1 accepted in index order; their handshake deliveries ([hello]
+  [features reply + port-status][barrier reply | barrier-unsupported]) merged as `order`; then closes."""
+  cw = CWorld((1,) * n)
+  outs = []; bad = []
+  try:
+    ops = [("open", i) for i in range(n)] + [("deliver", i) for i in order] + [("close", i) for i in closes]
+    for op in ops:
+      outs.append(cw.apply(op))
+      if cw.w.bad: bad = list(cw.w.bad); break
+  finally:
+    cw.w.dispose()
+  return cw.w, outs, bad
+
+
+def _d_worker (item):
+  from mc.env import boot
+  boot()
+  rep = Report(PID, "model_checking")
+  for n, order, tails in item:
+    for closes in tails:
+      w, outs, bad = run_merge(n, order, closes)
+      rep.evaluations += 1
+      rep.transitions += w.transitions
+      rep.outcome(("merge", tuple(outs)))
+      data = dict(part="d", n=n, order=list(order), closes=list(closes))
+      for k, what in bad: rep.violation(k, what, data)
+      if not bad and rep.evaluations % 997 == 3: rep.sample(dict(case=data, trace=w.lines))
+      if bad and closes == (): break      # the merge itself already violates: tails add nothing
+  return rep
+
+
 UP0 = (("open", 0), ("deliver", 0), ("deliver", 0), ("deliver", 0))
 
 
@@ -544,16 +601,18 @@ def run (cfg):
               "connection after every message prefix, and the first send during every chunk that makes the controller write (hello, features reply, echo request) fails with EPIPE followed by close, or by the rest of the script "
               "and close; (c) breadth-first search with state matching over all histories of <=%d operations {open(i), deliver-next(i), close(i), send-error(i)} "
               "on 3 connections (datapath ids %s), from the empty controller and from a controller with connection 0 already announced; per-connection script "
-              "[hello][features reply + port-status][barrier reply | barrier-unsupported error][port-status]. After every operation: events on nexus and "
+              "[hello][features reply + port-status][barrier reply | barrier-unsupported error][port-status]; (d) every merge order of the three handshake "
+              "deliveries of 2 (20 orders) and 3 (1680 orders) connections of ONE datapath id accepted in index order, each followed by every sequence of <=%d "
+              "closes (covers a connection accepted first completing its handshake last). After every operation: events on nexus and "
               "Connection, registry and a sendToDPID probe per datapath id are compared with the reference life-cycle. distinct = (script shape, loss, "
               "observation sequence) for (a)/(b), (last op, observation) for (c)"
-              % (kmax, list(kinds), depth, " / ".join(str(r[0]) for r in roots)))
+              % (kmax, list(kinds), depth, " / ".join(str(r[0]) for r in roots), cfg.pick(1, 2)))
   rep.bound = dict(async_messages=kmax, async_kinds=list(kinds), bfs_depth=depth, connections=3, datapath_ids=2)
   rep.assumptions = [
     "the peer is a faithful switch: it answers only requests it received, with the xid it read from the controller's bytes",
     "a port-status that arrives before the features reply may be dropped or delivered after connection-up (superseded by the features reply)",
     "ConnectionDown for a connection that never was announced is not constrained; events for a connection after the controller noticed its loss are constrained only by at-most-once / not-before-up",
-    "'most recent' live connection is accepted both as most recently opened and as most recently announced",
+    "'most recent' live connection = the live connection whose handshake completed (was announced) last, irrespective of accept order",
     "deferred sender is an inert stub (no partial writes; C20 covers them); data already queued on a socket is still readable after a failed send",
     "state key = reference model + every life-cycle field of each real Connection, its handshake handler, socket flags, event logs and the real registry",
   ]
@@ -567,6 +626,15 @@ def run (cfg):
       rep.merge(r)
     rep.extra["scripts"] = len(scripts) * 2
     rep.state_count += rep.evaluations
+  # ---- (d)
+  if only in (None, "d"):
+    tails = {n: close_tails(n, cfg.pick(1, 2)) for n in (2, 3)}
+    cases = [(n, order, tails[n]) for n in (2, 3) for order in merges(n)]
+    n0 = rep.evaluations
+    for r in pmap(_d_worker, split(cases, max(1, cfg.workers * 4)), cfg.workers, seed=cfg.seed):
+      rep.merge(r)
+    rep.extra["merge_orders"] = len(cases)
+    rep.state_count += rep.evaluations - n0
   # ---- (c)
   if only in (None, "c"):
     for dpids, root, d in roots:
@@ -584,6 +652,9 @@ def replay (cfg, data):
     loss = tuple(data["loss"]) if data.get("loss") else None
     w, outs = run_script(chunks, loss)
     return bool(w.bad), "\n".join(w.lines + ["=> %r" % ([k for k, _ in w.bad],)])
+  if data.get("part") == "d":
+    w, outs, bad = run_merge(data["n"], tuple(data["order"]), tuple(data["closes"]))
+    return bool(bad), "\n".join(w.lines + ["=> %r" % ([k for k, _ in bad],)])
   cw = CWorld(tuple(data.get("dpids", (1, 1, 2))))
   lines = []
   try:
